@@ -20,6 +20,7 @@ structure TInv (s : St) (t : Thread) : Prop where
   t6 : t.pc = .vWait → (s.thr t.fid).pc ≠ .idle ∧ (t.retrying = true → t.startPd ≤ (s.thr t.fid).startPd)
   t7 : t.pc = .vGot → t.retrying = true → t.startPd < t.cur
   t8 : t.pc = .vReject → t.startPd < t.rd
+  t9 : (t.pc = .vCancelled ∨ t.pc = .gCancelled) → t.cancelled = true
 
 structure Inv (s : St) : Prop where
   lowLe : ∀ tso ver, s.low = some (tso, ver) → tso ≤ s.pdLast
@@ -46,7 +47,7 @@ theorem TInv.frame {s s' : St} {t : Thread} (h : TInv s t)
     (hfl : ∀ f, s'.flight = some f → (s.flight = some f ∨ t.startPd ≤ (s'.thr f).startPd))
     (hthr : ∀ k, (s.thr k).pc ≠ .idle → (s'.thr k).pc ≠ .idle ∧ (s'.thr k).startPd = (s.thr k).startPd) :
     TInv s' t := by
-  obtain ⟨t1, t2, t2c, t3, t3c, t3d, t4, t4a, t5, t6, t7, t8⟩ := h
+  obtain ⟨t1, t2, t2c, t3, t3c, t3d, t4, t4a, t5, t6, t7, t8, t9⟩ := h
   constructor
   · intro h; have := t1 h; omega
   · omega
@@ -75,6 +76,7 @@ theorem TInv.frame {s s' : St} {t : Thread} (h : TInv s t)
     intro r; have := b r; omega
   · exact t7
   · exact t8
+  · exact t9
 
 theorem hasTs_of_isDone {p : PC} (h : isDone p = true) : hasTs p = true := by
   cases p <;> simp_all [isDone, hasTs]
@@ -179,7 +181,7 @@ theorem inv_start {s : St} (h : Inv s) (i : Nat) (t' : Thread) (hi : (s.thr i).p
 
 theorem inv_run_uRange {s : St} (h : Inv s) (i fresh : Nat) (hpc : (s.thr i).pc = .uRange) :
     Inv (step s (.run i fresh)) := by
-  obtain ⟨t1, t2, t2c, t3, t3c, t3d, t4, t4a, t5, t6, t7, t8⟩ := h.thr i
+  obtain ⟨t1, t2, t2c, t3, t3c, t3d, t4, t4a, t5, t6, t7, t8, t9⟩ := h.thr i
   simp only [step, step', runThread, hpc, St.set]
   split
   all_goals
@@ -191,7 +193,7 @@ theorem inv_run_uRange {s : St} (h : Inv s) (i fresh : Nat) (hpc : (s.thr i).pc 
 
 theorem inv_run_gCall {s : St} (h : Inv s) (i fresh : Nat) (hpc : (s.thr i).pc = .gCall) :
     Inv (step s (.run i fresh)) := by
-  obtain ⟨t1, t2, t2c, t3, t3c, t3d, t4, t4a, t5, t6, t7, t8⟩ := h.thr i
+  obtain ⟨t1, t2, t2c, t3, t3c, t3d, t4, t4a, t5, t6, t7, t8, t9⟩ := h.thr i
   simp only [step, step', runThread, hpc, St.set]
   apply Inv.setStep h i _ s.pdLast s.low (Nat.le_refl _) (LowMono.refl _) h.lowLe
   · simp [hpc]
@@ -201,7 +203,7 @@ theorem inv_run_gCall {s : St} (h : Inv s) (i fresh : Nat) (hpc : (s.thr i).pc =
 
 theorem inv_run_gIssued {s : St} (h : Inv s) (i fresh : Nat) (hpc : (s.thr i).pc = .gIssued) :
     Inv (step s (.run i fresh)) := by
-  obtain ⟨t1, t2, t2c, t3, t3c, t3d, t4, t4a, t5, t6, t7, t8⟩ := h.thr i
+  obtain ⟨t1, t2, t2c, t3, t3c, t3d, t4, t4a, t5, t6, t7, t8, t9⟩ := h.thr i
   simp only [step, step', runThread, hpc, St.set]
   apply Inv.setStep h i _ s.pdLast s.low (Nat.le_refl _) (LowMono.refl _) h.lowLe
   · simp [hpc]
@@ -211,7 +213,7 @@ theorem inv_run_gIssued {s : St} (h : Inv s) (i fresh : Nat) (hpc : (s.thr i).pc
 
 theorem inv_run_gArrived {s : St} (h : Inv s) (i fresh : Nat) (hpc : (s.thr i).pc = .gArrived) :
     Inv (step s (.run i fresh)) := by
-  obtain ⟨t1, t2, t2c, t3, t3c, t3d, t4, t4a, t5, t6, t7, t8⟩ := h.thr i
+  obtain ⟨t1, t2, t2c, t3, t3c, t3d, t4, t4a, t5, t6, t7, t8, t9⟩ := h.thr i
   simp only [step, step', runThread, hpc, St.set]
   split
   all_goals
@@ -223,7 +225,7 @@ theorem inv_run_gArrived {s : St} (h : Inv s) (i fresh : Nat) (hpc : (s.thr i).p
 
 theorem inv_run_gStoreNew {s : St} (h : Inv s) (i fresh : Nat) (hpc : (s.thr i).pc = .gStoreNew) :
     Inv (step s (.run i fresh)) := by
-  obtain ⟨t1, t2, t2c, t3, t3c, t3d, t4, t4a, t5, t6, t7, t8⟩ := h.thr i
+  obtain ⟨t1, t2, t2c, t3, t3c, t3d, t4, t4a, t5, t6, t7, t8, t9⟩ := h.thr i
   simp only [step, step', runThread, hpc, St.set]
   split
   · rename_i hlow
@@ -242,7 +244,7 @@ theorem inv_run_gStoreNew {s : St} (h : Inv s) (i fresh : Nat) (hpc : (s.thr i).
 
 theorem inv_run_gLoop {s : St} (h : Inv s) (i fresh : Nat) (hpc : (s.thr i).pc = .gLoop) :
     Inv (step s (.run i fresh)) := by
-  obtain ⟨t1, t2, t2c, t3, t3c, t3d, t4, t4a, t5, t6, t7, t8⟩ := h.thr i
+  obtain ⟨t1, t2, t2c, t3, t3c, t3d, t4, t4a, t5, t6, t7, t8, t9⟩ := h.thr i
   simp only [step, step', runThread, hpc, St.set]
   split
   · rename_i tso ver hlow
@@ -255,7 +257,7 @@ theorem inv_run_gLoop {s : St} (h : Inv s) (i fresh : Nat) (hpc : (s.thr i).pc =
 
 theorem inv_run_gLoaded {s : St} (h : Inv s) (i fresh : Nat) (hpc : (s.thr i).pc = .gLoaded) :
     Inv (step s (.run i fresh)) := by
-  obtain ⟨t1, t2, t2c, t3, t3c, t3d, t4, t4a, t5, t6, t7, t8⟩ := h.thr i
+  obtain ⟨t1, t2, t2c, t3, t3c, t3d, t4, t4a, t5, t6, t7, t8, t9⟩ := h.thr i
   simp only [step, step', runThread, hpc, St.set]
   obtain ⟨tso, ver, e1, e2, e3, e4⟩ := t3 (Or.inl hpc)
   split
@@ -272,7 +274,7 @@ theorem inv_run_gLoaded {s : St} (h : Inv s) (i fresh : Nat) (hpc : (s.thr i).pc
 
 theorem inv_run_gCas {s : St} (h : Inv s) (i fresh : Nat) (hpc : (s.thr i).pc = .gCas) :
     Inv (step s (.run i fresh)) := by
-  obtain ⟨t1, t2, t2c, t3, t3c, t3d, t4, t4a, t5, t6, t7, t8⟩ := h.thr i
+  obtain ⟨t1, t2, t2c, t3, t3c, t3d, t4, t4a, t5, t6, t7, t8, t9⟩ := h.thr i
   simp only [step, step', runThread, hpc, St.set]
   obtain ⟨tso, ver, e1, e2, e3, e4⟩ := t3 (Or.inr hpc)
   have := t3c hpc
@@ -302,7 +304,7 @@ theorem inv_run_gCas {s : St} (h : Inv s) (i fresh : Nat) (hpc : (s.thr i).pc = 
 
 theorem inv_run_vCheck {s : St} (h : Inv s) (i fresh : Nat) (hpc : (s.thr i).pc = .vCheck) :
     Inv (step s (.run i fresh)) := by
-  obtain ⟨t1, t2, t2c, t3, t3c, t3d, t4, t4a, t5, t6, t7, t8⟩ := h.thr i
+  obtain ⟨t1, t2, t2c, t3, t3c, t3d, t4, t4a, t5, t6, t7, t8, t9⟩ := h.thr i
   simp only [step, step', runThread, hpc, St.set]
   split
   · rename_i tso ver hlow
@@ -322,7 +324,7 @@ theorem inv_run_vCheck {s : St} (h : Inv s) (i fresh : Nat) (hpc : (s.thr i).pc 
 
 theorem inv_run_vGot {s : St} (h : Inv s) (i fresh : Nat) (hpc : (s.thr i).pc = .vGot) :
     Inv (step s (.run i fresh)) := by
-  obtain ⟨t1, t2, t2c, t3, t3c, t3d, t4, t4a, t5, t6, t7, t8⟩ := h.thr i
+  obtain ⟨t1, t2, t2c, t3, t3c, t3d, t4, t4a, t5, t6, t7, t8, t9⟩ := h.thr i
   simp only [step, step', runThread, hpc, St.set]
   have := t4 hpc
   have t5 := t5 (Or.inl hpc)
@@ -345,7 +347,7 @@ theorem inv_run_vGot {s : St} (h : Inv s) (i fresh : Nat) (hpc : (s.thr i).pc = 
 
 theorem inv_run_vJoin {s : St} (h : Inv s) (i fresh : Nat) (hpc : (s.thr i).pc = .vJoin) :
     Inv (step s (.run i fresh)) := by
-  obtain ⟨t1, t2, t2c, t3, t3c, t3d, t4, t4a, t5, t6, t7, t8⟩ := h.thr i
+  obtain ⟨t1, t2, t2c, t3, t3c, t3d, t4, t4a, t5, t6, t7, t8, t9⟩ := h.thr i
   simp only [step, step', runThread, hpc, St.set]
   split
   · rename_i f hf
@@ -398,7 +400,7 @@ theorem inv_run_vJoin {s : St} (h : Inv s) (i fresh : Nat) (hpc : (s.thr i).pc =
 
 theorem inv_run_gDone {s : St} (h : Inv s) (i fresh : Nat) (hpc : (s.thr i).pc = .gDone) :
     Inv (step s (.run i fresh)) := by
-  obtain ⟨t1, t2, t2c, t3, t3c, t3d, t4, t4a, t5, t6, t7, t8⟩ := h.thr i
+  obtain ⟨t1, t2, t2c, t3, t3c, t3d, t4, t4a, t5, t6, t7, t8, t9⟩ := h.thr i
   simp only [step, step', runThread, hpc]
   have t1 := t1 (by simp [hpc, hasTs])
   split
@@ -462,7 +464,7 @@ theorem inv_step {s : St} (h : Inv s) (a : Act) : Inv (step s a) := by
     simp only [step, step']
     split
     · rename_i hpc
-      obtain ⟨t1, t2, t2c, t3, t3c, t3d, t4, t4a, t5, t6, t7, t8⟩ := h.thr i
+      obtain ⟨t1, t2, t2c, t3, t3c, t3d, t4, t4a, t5, t6, t7, t8, t9⟩ := h.thr i
       simp only [St.set]
       apply Inv.setStep h i _ (s.pdLast + inc + 1) s.low (by omega) (LowMono.refl _)
       · intro tso ver hl; have := h.lowLe tso ver hl; omega
@@ -477,9 +479,35 @@ theorem inv_step {s : St} (h : Inv s) (a : Act) : Inv (step s a) := by
     · rename_i hi
       exact inv_start h i _ hi (Or.inr (Or.inl rfl)) rfl rfl
     · exact inv_tick h
+  | cancel i =>
+    obtain ⟨t1, t2, t2c, t3, t3c, t3d, t4, t4a, t5, t6, t7, t8, t9⟩ := h.thr i
+    simp only [step, step', St.set]
+    apply Inv.setStep h i _ s.pdLast s.low (Nat.le_refl _) (LowMono.refl _) h.lowLe
+    · simp
+    · intro a b; exact absurd a b
+    · intro hd; exact Or.inl ⟨hd, rfl, rfl⟩
+    · tinv_auto
+  | abort i =>
+    obtain ⟨t1, t2, t2c, t3, t3c, t3d, t4, t4a, t5, t6, t7, t8, t9⟩ := h.thr i
+    simp only [step, step']
+    split
+    · rename_i hc
+      split
+      all_goals first
+        | exact inv_tick h
+        | (rename_i hpc
+           simp only [St.set]
+           apply Inv.setStep h i _ s.pdLast s.low (Nat.le_refl _) (LowMono.refl _) h.lowLe
+           · simp [hpc]
+           · simp [hpc]
+           · simp [isDone]
+           · tinv_auto)
+    · exact inv_tick h
   | run i fresh =>
     cases hpc : (s.thr i).pc with
     | idle => simp only [step, step', runThread, hpc]; exact inv_tick h
+    | gCancelled => simp only [step, step', runThread, hpc]; exact inv_tick h
+    | vCancelled => simp only [step, step', runThread, hpc]; exact inv_tick h
     | uFin => simp only [step, step', runThread, hpc]; exact inv_tick h
     | uRange => exact inv_run_uRange h i fresh hpc
     | gWait => simp only [step, step', runThread, hpc]; exact inv_tick h
@@ -517,9 +545,11 @@ theorem lowMono_step {s : St} (h : Inv s) (a : Act) : LowMono s.low (step s a).l
   | startGet i => simp only [step, step']; split <;> exact LowMono.refl _
   | startVal i rd => simp only [step, step']; split <;> exact LowMono.refl _
   | startUpd i => simp only [step, step']; split <;> exact LowMono.refl _
+  | cancel i => simp only [step, step', St.set]; exact LowMono.refl _
+  | abort i => simp only [step, step', St.set]; (repeat' split) <;> exact LowMono.refl _
   | pdIssue i inc => simp only [step, step']; split <;> exact LowMono.refl _
   | run i fresh =>
-    obtain ⟨t1, t2, t2c, t3, t3c, t3d, t4, t4a, t5, t6, t7, t8⟩ := h.thr i
+    obtain ⟨t1, t2, t2c, t3, t3c, t3d, t4, t4a, t5, t6, t7, t8, t9⟩ := h.thr i
     cases hpc : (s.thr i).pc <;> simp only [step, step', runThread, hpc, St.set] <;>
       (try exact LowMono.refl _) <;> (repeat' split) <;> (try exact LowMono.refl _)
     · rename_i hlow; intro tso ver hl; simp [hlow] at hl
@@ -557,6 +587,8 @@ theorem pdLast_step (s : St) (a : Act) : s.pdLast ≤ (step s a).pdLast := by
   | startGet i => simp only [step, step']; split <;> simp [St.set]
   | startVal i rd => simp only [step, step']; split <;> simp [St.set]
   | startUpd i => simp only [step, step']; split <;> simp [St.set]
+  | cancel i => simp [step, step', St.set]
+  | abort i => simp only [step, step', St.set]; (repeat' split) <;> simp
   | pdIssue i inc => simp only [step, step']; split <;> simp [St.set]; omega
   | run i fresh =>
     cases hpc : (s.thr i).pc <;> simp only [step, step', runThread, hpc, St.set] <;>
@@ -575,6 +607,8 @@ theorem started_stable_step (s : St) (a : Act) (j : Nat) (hj : (s.thr j).pc ≠ 
   | startGet i => simp only [step, step']; split <;> simp [St.set, hj] <;> split <;> simp_all
   | startVal i rd => simp only [step, step']; split <;> simp [St.set, hj] <;> split <;> simp_all
   | startUpd i => simp only [step, step']; split <;> simp [St.set, hj] <;> split <;> simp_all
+  | cancel i => simp only [step, step', St.set]; by_cases hji : j = i <;> simp_all
+  | abort i => simp only [step, step', St.set]; (repeat' split) <;> (by_cases hji : j = i <;> simp_all)
   | pdIssue i inc => simp only [step, step']; split <;> simp [St.set, hj] <;> split <;> simp_all
   | run i fresh =>
     cases hpc : (s.thr i).pc <;> simp only [step, step', runThread, hpc, St.set] <;>
@@ -606,6 +640,35 @@ theorem started_stable_run (s : St) (acts : List Act) (j : Nat) (hj : (s.thr j).
     obtain ⟨g1, g2, g3, g4⟩ := ih (step s a) h1
     exact ⟨g1, by simp only [run, List.foldl_cons] at g2 ⊢; omega,
       by simp only [run, List.foldl_cons] at g3 ⊢; omega, by simp only [run, List.foldl_cons] at g4 ⊢; omega⟩
+
+/-! ### cancellation -/
+
+/-- only `cancel j` sets the cancelled flag of a started call j -/
+theorem cancelled_stable_step (s : St) (a : Act) (j : Nat) (hj : (s.thr j).pc ≠ .idle)
+    (hc : (s.thr j).cancelled = false) (ha : a ≠ .cancel j) : ((step s a).thr j).cancelled = false := by
+  cases a with
+  | startGet i => simp only [step, step']; split <;> simp [St.set, hc] <;> split <;> simp_all
+  | startVal i rd => simp only [step, step']; split <;> simp [St.set, hc] <;> split <;> simp_all
+  | startUpd i => simp only [step, step']; split <;> simp [St.set, hc] <;> split <;> simp_all
+  | pdIssue i inc => simp only [step, step']; split <;> simp [St.set, hc] <;> split <;> simp_all
+  | cancel i =>
+    have : j ≠ i := by intro e; subst e; exact ha rfl
+    simp [step, step', St.set, this, hc]
+  | abort i => simp only [step, step', St.set]; (repeat' split) <;> (by_cases hji : j = i <;> simp_all)
+  | run i fresh =>
+    cases hpc : (s.thr i).pc <;> simp only [step, step', runThread, hpc, St.set] <;>
+      (repeat' split) <;> simp [hc] <;> grind
+
+theorem cancelled_stable_run (s : St) (acts : List Act) (j : Nat) (hj : (s.thr j).pc ≠ .idle)
+    (hc : (s.thr j).cancelled = false) (ha : ∀ a ∈ acts, a ≠ Act.cancel j) :
+    ((run s acts).thr j).cancelled = false := by
+  induction acts generalizing s with
+  | nil => exact hc
+  | cons a as ih =>
+    have h1 := (started_stable_step s a j hj).1
+    have h2 := cancelled_stable_step s a j hj hc (ha a (by simp))
+    have := ih (step s a) h1 h2 (fun b hb => ha b (by simp [hb]))
+    simpa [run] using this
 
 /-! ### commit-wait loop -/
 
